@@ -95,3 +95,23 @@ def check_function(ctx, res: Result, fi: FuncInfo) -> int:
                     f"{kind}-by-index loop iterates `{src(it)[:80]}`, whose order is the order in which heralds/modes were declared; the result depends on declaration order (needs {need})",
                     construct=src(lp.iter)[:200])
     return n
+
+def herald_insertion_by_position(ctx, res, ah, rule="L-herald-insertion-by-position"):
+    """add_heralds_to_state walks mode positions (range), never the herald dictionary (whose order is declaration order)"""
+    import ast as _ast
+    from ..source import src as _src
+    its = []
+    for n in _ast.walk(ah.node):
+        if isinstance(n, _ast.For):
+            its.append(n.iter)
+        elif isinstance(n, _ast.comprehension):
+            its.append(n.iter)
+    pn = ah.params()[1] if len(ah.params()) > 1 else "heralds"
+    over_dict = [i for i in its if _src(i) in (pn, f"{pn}.items()", f"{pn}.keys()", f"{pn}.values()", f"list({pn})", f"enumerate({pn})")]
+    by_pos = [i for i in its if _src(i).startswith("range(")]
+    if over_dict:
+        res.bad(rule, "add_heralds_to_state", ah.site(over_dict[0]), ah.qualname, f"herald insertion iterates the herald dictionary (`{_src(over_dict[0])}`): the result depends on the order in which heralds were declared", construct=_src(over_dict[0]))
+    elif by_pos:
+        res.ok(rule, "add_heralds_to_state", ah.site(by_pos[0]), ah.qualname, "herald insertion walks mode positions (independent of dictionary order)")
+    else:
+        res.frozen(False, rule, "add_heralds_to_state", ah.site(), ah.qualname, "", "iteration over mode positions not recognised", construct="")
